@@ -5,6 +5,8 @@ use crate::common::{machinery_error, Tier};
 pub mod c06;
 pub mod c07;
 pub mod c11;
+pub mod c19;
+pub mod c20;
 pub mod grammar;
 pub mod loopprops;
 pub mod proto;
@@ -21,6 +23,8 @@ pub fn run(id: &str, tier: Tier) -> i32 {
         "C06" => c06::run(tier),
         "C07" => c07::run(tier),
         "C11" => c11::run(tier),
+        "C19" => c19::run(tier),
+        "C20" => c20::run(tier),
         "C08" => loopprops::run_c08(tier),
         _ => machinery_error(&format!("unknown property id {id}")),
     }
@@ -32,6 +36,8 @@ pub fn replay(id: &str, case: &Value) -> i32 {
         "C06" => c06::replay(case),
         "C07" => c07::replay(case),
         "C11" => c11::replay(case),
+        "C19" => c19::replay(case),
+        "C20" => c20::replay(case),
         "C02" | "C03" | "C09" | "C10" => proto::replay(id, case),
         _ => machinery_error(&format!("unknown property id {id}")),
     }
